@@ -97,10 +97,9 @@ fn ends_in_line_comment(src: &str, lx: Option<&Lexed>) -> bool {
 }
 
 fn panic_key(src: &str, lx: Option<&Lexed>, loc: &str, msg: &str) -> String {
-    if loc.ends_with("source.rs:366") || (loc.contains("base/src/source.rs") && ends_in_line_comment(src, lx)) {
-        if ends_in_line_comment(src, lx) {
-            return "fmt-panic:comment-at-eof".to_string();
-        }
+    // the construct, when it can be named from the input; otherwise the panic site
+    if loc.contains("source.rs") && ends_in_line_comment(src, lx) {
+        return "fmt-panic:comment-at-eof".to_string();
     }
     let file = loc.rsplit('/').next().unwrap_or("").split(':').next().unwrap_or("");
     format!("fmt-panic:{}:{}", file, slug(msg, 40))
@@ -196,6 +195,86 @@ pub fn mirror_check(src: &str, sl: &Lexed, ol: &Lexed, out: &mut Vec<Failure>) {
     }
 }
 
+/// Where the formatted text stops following the source, token by token: the kind of the first
+/// source token that cannot be found (in order) in the output.  Used to NAME a failure by the
+/// construct; the verdict itself never depends on it.  Legitimate differences are skipped: a
+/// dropped `in` that is replaced by a line break, added/removed commas, doc comments.
+pub fn diverge_key(src: &str, sl: &Lexed, out: &str) -> String {
+    let ob = out.as_bytes();
+    let sb = src.as_bytes();
+    let mut pos = 0usize;
+    for (i, t) in sl.toks.iter().enumerate() {
+        if t.kind == "EOF" || t.kind == "DocComment" || t.end <= t.start {
+            continue;
+        }
+        // skip blanks, comments and doc comments in the output
+        let mut saw_nl = false;
+        loop {
+            while pos < ob.len() && (ob[pos] as char).is_whitespace() {
+                if ob[pos] == b'\n' {
+                    saw_nl = true;
+                }
+                pos += 1;
+            }
+            if ob[pos..].starts_with(b"//") {
+                while pos < ob.len() && ob[pos] != b'\n' {
+                    pos += 1;
+                }
+            } else if ob[pos..].starts_with(b"/*") {
+                let mut j = pos + 2;
+                while j + 1 < ob.len() && !(ob[j] == b'*' && ob[j + 1] == b'/') {
+                    j += 1;
+                }
+                pos = (j + 2).min(ob.len());
+            } else {
+                break;
+            }
+        }
+        let text = &sb[t.start..t.end];
+        if ob[pos..].starts_with(text) {
+            pos += text.len();
+            continue;
+        }
+        if t.kind == "In" && (saw_nl || ob[pos..].starts_with(b"in")) {
+            continue;
+        }
+        if t.kind == "Comma" {
+            continue;
+        }
+        if pos < ob.len() && ob[pos] == b',' {
+            pos += 1;
+            let mut q = pos;
+            while q < ob.len() && (ob[q] as char).is_whitespace() {
+                q += 1;
+            }
+            if ob[q..].starts_with(text) {
+                pos = q + text.len();
+                continue;
+            }
+        }
+        if ob[pos..].starts_with(b"in") && !ob.get(pos + 2).map_or(false, |c| c.is_ascii_alphanumeric() || *c == b'_') {
+            // the formatter adds `in` after a `rec` group
+            let mut q = pos + 2;
+            while q < ob.len() && (ob[q] as char).is_whitespace() {
+                q += 1;
+            }
+            if ob[q..].starts_with(text) {
+                pos = q + text.len();
+                continue;
+            }
+        }
+        let prev = if i == 0 { "START".to_string() } else { sl.toks[i - 1].kind.clone() };
+        let same_line = i > 0 && !sb[sl.toks[i - 1].end..t.start].contains(&b'\n');
+        return match t.kind.as_str() {
+            "In" | "Let" | "Type" | "Rec" | "Do" | "Seq" | "Else" | "Then" | "With" | "Pipe" | "If" | "Match" => {
+                format!("at-{}{}", t.kind, if same_line { "-same-line" } else { "" })
+            }
+            _ => format!("at-{}..{}", prev, t.kind),
+        };
+    }
+    "at-END".to_string()
+}
+
 fn node_before(canon: &str, pos: usize) -> String {
     // the closest enclosing Debug constructor name before `pos`
     let b = canon.as_bytes();
@@ -261,6 +340,7 @@ pub fn evaluate(vm: &RootedThread, name: &str, src: &str) -> Eval {
     let out = match format_once(vm, name, src) {
         Fmt::Ok(o) => o,
         Fmt::Refused(e) => {
+            // not a violation by itself (no text was produced); counted, and bounded by the check
             failures.push(Failure {
                 cat: "fmt-refused".into(),
                 key: format!("fmt-refused:{}", slug(e.lines().next().unwrap_or(""), 50)),
@@ -283,7 +363,7 @@ pub fn evaluate(vm: &RootedThread, name: &str, src: &str) -> Eval {
     match canon_ast(&out) {
         Err(e) => failures.push(Failure {
             cat: "fmt-output-unparseable".into(),
-            key: format!("fmt-output-unparseable:{}", slug(&e, 50)),
+            key: format!("fmt-output-unparseable:{}", sl.as_ref().map_or("?".to_string(), |sl| diverge_key(src, sl, &out))),
             what: "the formatted text does not parse".into(),
             detail: e.chars().take(400).collect(),
         }),
@@ -291,9 +371,10 @@ pub fn evaluate(vm: &RootedThread, name: &str, src: &str) -> Eval {
             if ast1 != ast0 {
                 let d = first_diff(&ast0, &ast1);
                 let pos = ast0.bytes().zip(ast1.bytes()).take_while(|(a, b)| a == b).count();
+                let at = sl.as_ref().map_or("?".to_string(), |sl| diverge_key(src, sl, &out));
                 failures.push(Failure {
                     cat: "fmt-ast-changed".into(),
-                    key: format!("fmt-ast-changed:{}", node_before(&ast0, pos)),
+                    key: if at == "at-END" { format!("fmt-ast-changed:{}", node_before(&ast0, pos)) } else { format!("fmt-ast-changed:{}", at) },
                     what: "the formatted text parses to a different syntax tree".into(),
                     detail: d,
                 });
@@ -313,7 +394,7 @@ pub fn evaluate(vm: &RootedThread, name: &str, src: &str) -> Eval {
             if !failures.iter().any(|f| f.cat == "fmt-output-unparseable") {
                 failures.push(Failure {
                     cat: "fmt-output-unparseable".into(),
-                    key: format!("fmt-output-unparseable:{}", slug(&e, 50)),
+                    key: format!("fmt-output-unparseable:{}", sl.as_ref().map_or("?".to_string(), |sl| diverge_key(src, sl, &out))),
                     what: "the formatted text does not tokenize".into(),
                     detail: e,
                 })
@@ -360,7 +441,7 @@ pub fn evaluate(vm: &RootedThread, name: &str, src: &str) -> Eval {
 pub fn shrink(vm: &RootedThread, src: &str, key: &str, budget: usize) -> String {
     let mut evals = 0usize;
     let t0 = std::time::Instant::now();
-    let mut still = |cand: &str, evals: &mut usize| -> bool {
+    let still = |cand: &str, evals: &mut usize| -> bool {
         *evals += 1;
         let e = evaluate(vm, "c10shrink", cand);
         e.parse_err.is_none() && e.failures.iter().any(|f| f.key == key)
